@@ -94,15 +94,35 @@ def offsC (z : Zone) (c : ZRng) (t0 : Int) : Option (Int × ZRng) :=
     | none => none
     | some r => some (r.offs, r)
 
-/-- `zif_utc_time(z, t)`: local -> UTC by the two-step fixed point -/
+/-- is `u` inside the stretch `r` between two transitions (`INT_MIN` / `INT_MAX` stand for the open ends) -/
+def ZRng.holds (r : ZRng) (u : Int) : Bool :=
+  (r.prev == intMin || decide (u ≥ r.prev)) && (r.next == intMax || decide (u < r.next))
+
+/-- `zif_utc_time(z, t)`: local -> UTC.  A first guess `o(t - o(t))` lands in the right stretch or next to it; of that
+stretch and its two neighbours the first one that `t` less its offset falls into is taken (a local time the zone has
+twice means its first occurrence); if there is none (a local time the clocks skipped) the offset from before the gap
+(RFC 5545 3.3.5).  The cache is left on the stretch of the guess. -/
 def utcTime (z : Zone) (c : ZRng) (t : Int) : Option (Int × ZRng) :=
+  if z.utc then some (t, c) else
   match offsC z c t with
   | none => none
   | some (x1, c1) =>
-    if x1 = 0 then some (t, c1)
-    else match offsC z c1 (t - wrap32 x1) with
-      | none => none
-      | some (x2, c2) => some (t - x2, c2)
+    match offsC z c1 (t - wrap32 x1) with
+    | none => none
+    | some (_, r) =>
+      let pv : Option (Option ZRng) := if r.prev > intMin then (findZrng z (wrap32 (r.prev - 1))).map some else some none
+      let nx : Option (Option ZRng) := if r.next < intMax then (findZrng z (wrap32 r.next)).map some else some none
+      match pv, nx with
+      | some pv, some nx =>
+        let cand : List ZRng := pv.toList ++ [r] ++ nx.toList
+        let valid := (cand.filter fun q => q.holds (t - q.offs)).map fun q => t - q.offs
+        match valid with
+        | u :: us => some (us.foldl min u, r)
+        | [] =>
+          match (cand.zip cand.tail).find? fun ab => decide (t - ab.1.offs ≥ ab.1.next) && decide (t - ab.2.offs < ab.2.prev) with
+          | some ab => some (t - ab.1.offs, r)
+          | none => some (t - r.offs, r)
+      | _, _ => none
 
 /-- `zif_local_time(z, t)` -/
 def localTime (z : Zone) (c : ZRng) (t : Int) : Option (Int × ZRng) :=
